@@ -826,3 +826,21 @@ def micro_programs(rng):
         out.append(("m_%s.as" % kind, render([(kind, d[0], call)])))
     return out
 
+
+def break_program(text, rng):
+    """An ill-typed variant of a generated program: a handful of erroneous statements at the end of
+    main() - undefined names, wrong argument types and counts, an unknown domain, an ambiguous
+    literal - so that the compiler prints diagnostics with lists of candidate meanings and types."""
+    bad = ['print << nosuch%d(1) << newline;' % rng.range(1, 99),
+           'print << (1 + "a") << newline;',
+           'xq%d: SI := "str";' % rng.range(1, 99),
+           'import from NoSuchDomain%d;' % rng.range(1, 99),
+           'print << first(3) << newline;',
+           'print << cons("x", [1, 2]) << newline;',
+           'print << 12345678901234567890123 rem "7" << newline;',
+           'yq%d := (2, 3) + 1;' % rng.range(1, 99),
+           'print << concat("a", 3) << newline;',
+           'zq%d: Integer := nil;' % rng.range(1, 99)]
+    pick = rng.sample(bad, rng.range(3, 6))
+    return text.replace("}\nmain();\n", "".join("\t%s\n" % b for b in pick) + "}\nmain();\n")
+
